@@ -113,6 +113,8 @@ structure ProgIR where
   classRefs : Option (Array (List GRef)) := none
   autoPseudo : Bool := true
   ignoreBad : Bool := false
+  gattrValues : List (Nat × List Int) := []     -- (glyph, values of the IR's glyph attributes) - engine-level runs
+  numUser : Nat := 4
 deriving Inhabited
 
 open Lean in
@@ -259,9 +261,17 @@ def parseProgIR (text : String) : Except String ProgIR := do
   let autoPseudo ← if apj.isNull then pure true else apj.getBool?
   let ibj := j.getObjValD "ignoreBad"
   let ignoreBad ← if ibj.isNull then pure false else ibj.getBool?
+  let gvj := j.getObjValD "gattrValues"
+  let gattrValues ← if gvj.isNull then pure [] else do
+    let arr ← gvj.getArr?
+    arr.toList.mapM fun e => do
+      let t ← e.getArr?
+      if t.size != 2 then throw "bad-input: gattrValues entry"
+      let vs ← (← t[1]!.getArr?).toList.mapM (·.getInt?)
+      pure ((← jNat t[0]!), vs)
   return {
     features, languages, nameStart, classRefs, autoPseudo, ignoreBad,
-    gattr,
+    gattr, gattrValues,
     numGlyphs := ← jNat (← j.getObjVal? "numGlyphs"), numReal := ← jNat (← j.getObjVal? "numReal"),
     lb := ← jNat (← j.getObjVal? "lb"), phantom := ← jNat (← j.getObjVal? "phantom"),
     anyClass := ← jNat (← j.getObjVal? "anyClass"), classes, classDefs, passes }
